@@ -131,3 +131,83 @@ package queue
 //@   loop 1
 //@     invariant 0 <= iter() && iter() <= n
 //@     invariant forall(j, 0, iter(), q.items[j].GetId() != id)
+
+// ---- public operations: one atomic application of the inner operation under q.m ----
+
+//@ func (*TaskQueue).AddFirst
+//@   prop C05
+//@   requires t != nil
+//@   modifies q.items, q.measureActionFn
+
+//@ func (*TaskQueue).AddLast
+//@   prop C05
+//@   requires t != nil
+//@   modifies q.items, q.measureActionFn, allelems(task.Task)
+
+//@ func (*TaskQueue).AddAfter
+//@   prop C05
+//@   requires newTask != nil
+//@   modifies q.items, q.measureActionFn
+
+//@ func (*TaskQueue).AddBefore
+//@   prop C05
+//@   requires newTask != nil
+//@   modifies q.items, q.measureActionFn
+
+//@ func (*TaskQueue).RemoveFirst
+//@   prop C05
+//@   modifies q.items, q.measureActionFn
+
+//@ func (*TaskQueue).RemoveLast
+//@   prop C05
+//@   modifies q.items, q.measureActionFn
+
+//@ func (*TaskQueue).Remove
+//@   prop C05
+//@   modifies q.items, q.measureActionFn, allelems(task.Task)
+
+//@ func (*TaskQueue).Get
+//@   prop C05
+//@   modifies q.items, q.measureActionFn
+
+//@ func (*TaskQueue).GetFirst
+//@   prop C05
+//@   modifies q.items, q.measureActionFn
+
+//@ func (*TaskQueue).GetLast
+//@   prop C05
+//@   modifies q.items, q.measureActionFn
+
+//@ func (*TaskQueue).Length
+//@   prop C05
+//@   modifies q.items, q.measureActionFn
+//@   ensures result >= 0
+
+//@ func (*TaskQueue).IsEmpty
+//@   prop C05
+//@   modifies q.items, q.measureActionFn
+
+// number of tasks among s[0..i) accepted by f
+//@ specfn kept(s []task.Task, f func(task.Task) bool, i int) int
+//@   axiom i <= 0 ==> result == 0
+//@   axiom i > 0 ==> result == kept(s, f, i-1) + ite(f(s[i-1]), 1, 0)
+
+// Filter's critical section: the queue becomes the order-preserving subsequence of accepted tasks.
+//@ func (*TaskQueue).Filter$1
+//@   prop C05
+//@   requires NoNil(q.items)
+//@   modifies q.items
+//@   let n := old(len(q.items))
+//@   ensures [len]   len(q.items) == old(kept(q.items, filterFn, len(q.items)))
+//@   ensures [elems] forall(j, 0, n, old(filterFn(q.items[j])) ==> q.items[old(kept(q.items, filterFn, j))] == old(q.items[j]))
+//@   ensures [nonil] NoNil(q.items)
+//@   loop 1
+//@     invariant 0 <= iter() && iter() <= n
+//@     invariant fresh(newItems) && len(newItems) == kept(q.items, filterFn, iter())
+//@     invariant forall(j, 0, iter(), 0 <= kept(q.items, filterFn, j) && kept(q.items, filterFn, j) + ite(filterFn(q.items[j]), 1, 0) <= kept(q.items, filterFn, iter()))
+//@     invariant forall(j, 0, iter(), filterFn(q.items[j]) ==> newItems[kept(q.items, filterFn, j)] == q.items[j])
+//@     invariant NoNil(newItems)
+
+//@ func (*TaskQueue).Filter
+//@   prop C05
+//@   modifies q.items, q.measureActionFn
